@@ -8,6 +8,7 @@ import Driver.Tax
 import Driver.C04
 import Driver.C13
 import Driver.C12
+import Driver.C14
 
 open Driver
 
@@ -20,7 +21,8 @@ def handlers : List (List String → Option String) := [
   Driver.Tax.handle,
   Driver.C04.handle,
   Driver.C13.handle,
-  Driver.C12.handle
+  Driver.C12.handle,
+  Driver.C14.handle
 ]
 
 def dispatch (toks : List String) : String :=
